@@ -20,6 +20,8 @@ def c16_gen(rng, tier):
 def c16_oracle(line, res):
     if "res=TRUNCATED" in res:
         return "caller received the truncated UDP message"
+    if "res=NIL-NIL" in res:
+        return "the exchange returned neither a message nor an error (the caller must receive the outcome of the TCP exchange)"
     if "BADID" in res:
         return "reply id differs from the caller's id"
     f = gens.fields(line)
